@@ -31,6 +31,12 @@ CHECKS = {
  "C06": dict(technique="Coq: the decoder is a function of the bytes only (same value wherever and through whichever handle); strides lemma; correspondence: handle vs view rebuilt from (buffer, offset) compared on values, size, shape, strides, every item/field offset",
              text="Theorems (closed): decoding depends on the bytes only (leaves), stride addressing for any axis order. Tie: for every constructed object a view made by _from_buffer(buffer, offset) is compared with the constructor's handle on every observable (values at every index, _size, _shape, _strides, all item and field offsets); nested compounds are reached through views by construction of the read-back.",
              ref="DESIGN.md §7 C06"),
+ "C10": dict(technique="Coq: get/set laws on value trees for paths of any depth + capacity-preserving assignment (Update.assign), certified history judgement; correspondence: assignment histories through handles and views with full re-read, whole-buffer diff and bytes judged in Coq",
+             text="Theorems (closed): the assigned element reads back as the assigned value, every element on a diverging path is unchanged (any depth), strings keep the size fixed at creation, soundness of the history judgement (after every accepted step the object's bytes are the documented image of the updated value, same size). Tie: histories of fitting assignments (leaves and whole nested structs/arrays, plain data or numpy) through the constructor handle or fresh views, interleaved with buffer growth; after each step full re-read through handle and view, buffer diff outside the object, and the bytes judged in Coq against the model's updated value.",
+             ref="DESIGN.md §7 C10"),
+ "C11": dict(technique="Coq: the model decides which assignments can be honoured (element exists, same shape, every string within the capacity fixed at creation); certified history judgement; correspondence: every misuse class on objects with live neighbours must raise and leave all bytes unchanged",
+             text="Theorems (closed): too-large strings, missing elements and other shapes are refused by the model; in an accepted history every refused operation left the object the image of the unchanged value; sizes never change. Tie: generated misuse (string/nested item too large, update of other length or shape, index outside the shape incl. negative, buffer of another context, offset without buffer) interleaved with fitting operations: must raise, whole buffer unchanged, later reads unaffected.",
+             ref="DESIGN.md §7 C11"),
 }
 NOT_YET = {}
 def main():
